@@ -153,6 +153,14 @@ def rule_state(ctx):
             ms.append(f"{q} fills {name} (line {ln})")
     ctx.check(not ms, 'R08.3/no-module-state', 'mchap/**::module containers', f"{len(ctx.prog.funcs)} functions scanned, none stores into a module-level container (detector self-test passed)",
               f"module-level containers are filled at run time, so a result can depend on what the process did before: {ms}")
+    # a memoised function hands the same object to every caller: a later in-place edit of the result changes what the next caller gets
+    memo = []
+    for q, f in ctx.prog.funcs.items():
+        for d in f.node.decorator_list:
+            if ast.unparse(d).split('(')[0].split('.')[-1] in ('lru_cache', 'cache', 'cached_property'):
+                memo.append(f"{q} (@{ast.unparse(d)[:30]})")
+    ctx.check(not memo, 'R08.3/no-memoised-functions', 'mchap/**::memoised functions', "no function is memoised with functools (results are never shared between calls)",
+              f"memoised functions keep their results between calls; an in-place edit of a returned array leaks into the next locus: {memo}")
     # the fit() methods leave their arguments alone (a fit that writes into the caller's `initial` makes the next fit differ).
     # Decided on terms: an array handed to a parameter that the callee mutates (effect summary), or stored into directly, must not be
     # rooted in a parameter of fit() on any arm of the decisions that lead there.
